@@ -654,6 +654,46 @@ def scenario_orph(w, rng):
     ctx.case({"cfg": w.cfg.desc(), "sc": "ORPH", "hist": hist, "g": w.sh.describe()}, nontrivial=changed)
 
 
+def scenario_orph_targeted(w):
+    """deterministic companion of ORPH: a persistent child that is in no parent's
+    collection, with dependents of its own, is attached to a delete-orphan parent and
+    detached again before the flush.  By the property it was removed from a delete-orphan
+    relationship and not re-associated: it is deleted, together with its delete closure."""
+    from sqlalchemy import exc as sa_exc
+    from sqlalchemy import orm
+
+    ctx = w.ctx
+    rel = w.orphan_rels[0]
+    below = [r for r in w.sh.by_cls.get(rel.target, ()) if r.shape in ("o2m", "o2o", "m2m")]
+    if not below:
+        return
+    w.reset()
+    p, c = w.new(rel.cls), w.new(rel.target)
+    g = w.new(below[0].target)
+    w.link(c, below[0], g)
+    hist = [["persist", p, c, g], ["attach", p, rel.attr, c], ["remove", p, rel.attr, c], ["flush"]]
+    with orm.Session(w.eng, expire_on_commit=False) as sess:
+        persist_all(w, sess, [p, c, g])
+        w.load_all()
+        w.link(p, rel, c)
+        w.unlink(p, rel, c)
+        gone = w.sh.closure(c, "delete")
+        want = set(w.obj) - gone
+        ctx.count("orphan_checks")
+        try:
+            sess.flush()
+            rows = w.table_names(sess)
+            problem = None if rows == want else "rows %s, expected %s" % (sorted(rows), sorted(want))
+        except sa_exc.IntegrityError as e:
+            problem = "flush raised IntegrityError on [%s]" % str(e).split("[SQL:")[-1][:50]
+        if problem:
+            violation(w, "ORPH-T", "delete-orphan-toplevel-skips-delete-cascade",
+                      "after %s: %s (delete closure of the orphan: %s)" % (hist, problem, sorted(gone)),
+                      {"history": hist, "expected": sorted(want)})
+        sess.rollback()
+    ctx.case({"cfg": w.cfg.desc(), "sc": "ORPH-T"}, nontrivial=len(gone) > 1)
+
+
 def scenario_exp(w, rng):
     from sqlalchemy import orm
 
@@ -777,6 +817,8 @@ def run(ctx):
             if w.orphan_rels:
                 for _ in range(3):
                     scenario_orph(w, rng)
+                if rep == 0:
+                    scenario_orph_targeted(w)
             scenario_exp(w, rng)
             scenario_ref(w, rng)
             scenario_mrg(w, rng)
